@@ -1,19 +1,478 @@
 #!/usr/bin/env python3
-"""Persistent CPython oracle worker (stdlib only). Line protocol: one JSON request per line, one JSON answer per line."""
-import sys, json
+"""Persistent CPython oracle worker (stdlib only).
+
+Line protocol: one JSON request per line on stdin, one JSON answer per line on stdout.
+ops: hello | exec | ast | intops | bind
+"""
+import sys, json, struct, signal, ast
 
 assert sys.version_info[:2] >= (3, 9)
+try:
+    import resource
+    # A runaway allocation in one C-level operation cannot be interrupted by the alarm: cap the
+    # address space so it fails fast with MemoryError (reported as outcome "timeout" = case skipped).
+    resource.setrlimit(resource.RLIMIT_AS, (4 << 30, 4 << 30))
+except Exception:  # noqa
+    pass
+sys.setrecursionlimit(20000)
+try:
+    sys.set_int_max_str_digits(0)
+except AttributeError:
+    pass
+
+
+class StarlarkFail(Exception):
+    pass
+
+
+class OracleTimeout(BaseException):
+    pass
+
+
+def enc_str(s):
+    out = ['"']
+    for c in s:
+        o = ord(c)
+        if c == '\\':
+            out.append('\\\\')
+        elif c == '"':
+            out.append('\\"')
+        elif c == '\n':
+            out.append('\\n')
+        elif c == '\r':
+            out.append('\\r')
+        elif c == '\t':
+            out.append('\\t')
+        elif o < 0x20 or o > 0x7e:
+            out.append('\\u{%x}' % o)
+        else:
+            out.append(c)
+    out.append('"')
+    return ''.join(out)
+
+
+def encode(v, stack=None):
+    if stack is None:
+        stack = []
+    if v is None:
+        return 'N'
+    if v is True:
+        return 'T'
+    if v is False:
+        return 'F'
+    if isinstance(v, int):
+        return str(v)
+    if isinstance(v, str):
+        return enc_str(v)
+    if isinstance(v, float):
+        return 'f%016x' % struct.unpack('>Q', struct.pack('>d', v))[0]
+    if any(s is v for s in stack):
+        return '<cycle>'
+    stack.append(v)
+    try:
+        if isinstance(v, list):
+            return '[' + ','.join(encode(x, stack) for x in v) + ']'
+        if isinstance(v, tuple):
+            return '(' + ''.join(encode(x, stack) + ',' for x in v) + ')'
+        if isinstance(v, dict):
+            return '{' + ','.join(encode(k, stack) + ':' + encode(x, stack) for k, x in v.items()) + '}'
+        if isinstance(v, range):
+            return 'o:range:' + repr(v)
+        return 'o:%s' % type(v).__name__
+    finally:
+        stack.pop()
+
+
+def make_prelude(tx):
+    def emit(x):
+        tx.append(encode(x))
+        return x
+
+    def opaque(x):
+        return x
+
+    def fail(*args):
+        raise StarlarkFail(' '.join(str(a) for a in args))
+
+    return {'emit': emit, 'opaque': opaque, 'fail': fail, '__builtins__': __builtins__}
+
+
+def _alarm(signum, frame):
+    raise OracleTimeout()
+
+
+signal.signal(signal.SIGALRM, _alarm)
+
+
+def op_exec(req):
+    src = req['src']
+    tx = []
+    ns = make_prelude(tx)
+    prelude_names = set(ns.keys())
+    outcome = 'ok'
+    msg = ''
+    try:
+        code = compile(src, 'prog.py', 'exec')
+    except SyntaxError as e:
+        return {'ok': True, 'outcome': 'syntax', 'msg': str(e), 'tx': [], 'vars': []}
+    signal.setitimer(signal.ITIMER_REAL, float(req.get('timeout', 3.0)))
+    try:
+        try:
+            exec(code, ns)
+        finally:
+            signal.setitimer(signal.ITIMER_REAL, 0)
+    except StarlarkFail as e:
+        outcome, msg = 'fail', str(e)
+    except OracleTimeout:
+        outcome = 'timeout'
+    except MemoryError:
+        outcome = 'timeout'
+    except RecursionError as e:
+        outcome, msg = 'error', 'RecursionError'
+    except Exception as e:  # noqa
+        outcome, msg = 'error', '%s: %s' % (type(e).__name__, e)
+    vars_ = []
+    if req.get('vars'):
+        for k in sorted(ns.keys()):
+            if k in prelude_names or k.startswith('_'):
+                continue
+            v = ns[k]
+            if callable(v):
+                continue
+            vars_.append([k, encode(v)])
+    return {'ok': True, 'outcome': outcome, 'msg': msg, 'tx': tx, 'vars': vars_}
+
+
+# ------------------------------------------------------------------------------------------
+# integer operations (C10): batches of [op, a, b] with decimal-string operands
+
+def _int_op(op, a, b):
+    if op == '+': return a + b
+    if op == '-': return a - b
+    if op == '*': return a * b
+    if op == '//': return a // b
+    if op == '%': return a % b
+    if op == '&': return a & b
+    if op == '|': return a | b
+    if op == '^': return a ^ b
+    if op == '<<':
+        if b > 100000: raise OverflowError()
+        return a << b
+    if op == '>>': return a >> b
+    if op == '==': return a == b
+    if op == '!=': return a != b
+    if op == '<': return a < b
+    if op == '<=': return a <= b
+    if op == '>': return a > b
+    if op == '>=': return a >= b
+    if op == 'neg': return -a
+    if op == 'pos': return +a
+    if op == 'inv': return ~a
+    if op == 'abs': return abs(a)
+    if op == 'bool': return bool(a)
+    if op == 'str': return str(a)
+    if op == 'hex': return '%x' % a
+    if op == 'oct': return '%o' % a
+    if op == 'dec': return '%d' % a
+    if op == 'float': return float(a)
+    raise ValueError(op)
+
+
+def op_intops(req):
+    out = []
+    for item in req['items']:
+        op, a = item[0], int(item[1])
+        b = int(item[2]) if len(item) > 2 and item[2] is not None else None
+        try:
+            r = _int_op(op, a, b)
+            out.append(encode(r))
+        except (ZeroDivisionError, ValueError, OverflowError):
+            out.append('ERR')
+    return {'ok': True, 'results': out}
+
+
+def op_parse_int(req):
+    out = []
+    for s, base in req['items']:
+        try:
+            if base is None:
+                out.append(encode(int(s)))
+            else:
+                out.append(encode(int(s, base)))
+        except (ValueError, TypeError):
+            out.append('ERR')
+    return {'ok': True, 'results': out}
+
+
+def op_int_float(req):
+    out = []
+    for kind, s in req['items']:
+        try:
+            if kind == 'int_of_float':
+                out.append(encode(int(struct.unpack('>d', struct.pack('>Q', int(s, 16)))[0])))
+            else:
+                out.append(encode(float(int(s))))
+        except (ValueError, OverflowError):
+            out.append('ERR')
+    return {'ok': True, 'results': out}
+
+
+# ------------------------------------------------------------------------------------------
+# AST S-expressions (C06)
+
+BINOPS = {ast.Add: '+', ast.Sub: '-', ast.Mult: '*', ast.Mod: '%', ast.Div: '/', ast.FloorDiv: '//', ast.BitAnd: '&',
+          ast.BitOr: '|', ast.BitXor: '^', ast.LShift: '<<', ast.RShift: '>>'}
+CMPOPS = {ast.Eq: '==', ast.NotEq: '!=', ast.Lt: '<', ast.Gt: '>', ast.LtE: '<=', ast.GtE: '>=', ast.In: 'in', ast.NotIn: 'notin'}
+AUGOPS = {ast.Add: '+=', ast.Sub: '-=', ast.Mult: '*=', ast.Div: '/=', ast.FloorDiv: '//=', ast.Mod: '%=', ast.BitAnd: '&=',
+          ast.BitOr: '|=', ast.BitXor: '^=', ast.LShift: '<<=', ast.RShift: '>>='}
+
+
+class NotShared(Exception):
+    pass
+
+
+def sx_block(stmts):
+    return '(block' + ''.join(' ' + sx_stmt(s) for s in stmts) + ')'
+
+
+def sx_params(a):
+    out = []
+    if a.posonlyargs:
+        raise NotShared('posonly')
+    n_no_default = len(a.args) - len(a.defaults)
+    for i, p in enumerate(a.args):
+        if p.annotation is not None:
+            raise NotShared('annotation')
+        if i >= n_no_default:
+            out.append('(param %s %s)' % (p.arg, sx_expr(a.defaults[i - n_no_default])))
+        else:
+            out.append('(param %s)' % p.arg)
+    if a.vararg is not None:
+        out.append('(star %s)' % a.vararg.arg)
+    elif a.kwonlyargs:
+        out.append('(barestar)')
+    for p, d in zip(a.kwonlyargs, a.kw_defaults):
+        if d is None:
+            out.append('(param %s)' % p.arg)
+        else:
+            out.append('(param %s %s)' % (p.arg, sx_expr(d)))
+    if a.kwarg is not None:
+        out.append('(starstar %s)' % a.kwarg.arg)
+    return '(params' + ''.join(' ' + x for x in out) + ')'
+
+
+def sx_target(t):
+    if isinstance(t, ast.Name):
+        return '(id %s)' % t.id
+    if isinstance(t, (ast.Tuple, ast.List)):
+        return '(tuple' + ''.join(' ' + sx_target(x) for x in t.elts) + ')'
+    if isinstance(t, ast.Subscript):
+        if isinstance(t.slice, (ast.Slice, ast.Tuple)):
+            raise NotShared('slice target')
+        return '(index %s %s)' % (sx_expr(t.value), sx_expr(t.slice))
+    if isinstance(t, ast.Attribute):
+        return '(dot %s %s)' % (sx_expr(t.value), t.attr)
+    raise NotShared('target ' + type(t).__name__)
+
+
+def sx_stmt(s):
+    if isinstance(s, ast.Break):
+        return '(break)'
+    if isinstance(s, ast.Continue):
+        return '(continue)'
+    if isinstance(s, ast.Pass):
+        return '(pass)'
+    if isinstance(s, ast.Return):
+        return '(return)' if s.value is None else '(return %s)' % sx_expr(s.value)
+    if isinstance(s, ast.Expr):
+        return '(expr %s)' % sx_expr(s.value)
+    if isinstance(s, ast.Assign):
+        if len(s.targets) != 1:
+            raise NotShared('multi-assign')
+        return '(assign %s %s)' % (sx_target(s.targets[0]), sx_expr(s.value))
+    if isinstance(s, ast.AugAssign):
+        return '(augassign %s %s %s)' % (AUGOPS[type(s.op)], sx_target(s.target), sx_expr(s.value))
+    if isinstance(s, ast.If):
+        if s.orelse:
+            return '(ifelse %s %s %s)' % (sx_expr(s.test), sx_block(s.body), sx_block(s.orelse))
+        return '(if %s %s)' % (sx_expr(s.test), sx_block(s.body))
+    if isinstance(s, ast.For):
+        if s.orelse:
+            raise NotShared('for-else')
+        return '(for %s %s %s)' % (sx_target(s.target), sx_expr(s.iter), sx_block(s.body))
+    if isinstance(s, ast.FunctionDef):
+        if s.decorator_list or s.returns is not None:
+            raise NotShared('decorator/returns')
+        return '(def %s %s %s)' % (s.name, sx_params(s.args), sx_block(s.body))
+    raise NotShared('stmt ' + type(s).__name__)
+
+
+def sx_clauses(gens):
+    out = []
+    for g in gens:
+        if g.is_async:
+            raise NotShared('async')
+        out.append('(for %s %s)' % (sx_target(g.target), sx_expr(g.iter)))
+        for c in g.ifs:
+            out.append('(if %s)' % sx_expr(c))
+    return ''.join(' ' + x for x in out)
+
+
+def sx_expr(e):
+    if isinstance(e, ast.Tuple):
+        return '(tuple' + ''.join(' ' + sx_expr(x) for x in e.elts) + ')'
+    if isinstance(e, ast.Attribute):
+        return '(dot %s %s)' % (sx_expr(e.value), e.attr)
+    if isinstance(e, ast.Call):
+        args = []
+        for a in e.args:
+            if isinstance(a, ast.Starred):
+                args.append('(star %s)' % sx_expr(a.value))
+            else:
+                args.append('(pos %s)' % sx_expr(a))
+        for k in e.keywords:
+            if k.arg is None:
+                args.append('(starstar %s)' % sx_expr(k.value))
+            else:
+                args.append('(named %s %s)' % (k.arg, sx_expr(k.value)))
+        return '(call %s%s)' % (sx_expr(e.func), ''.join(' ' + a for a in args))
+    if isinstance(e, ast.Subscript):
+        sl = e.slice
+        if isinstance(sl, ast.Slice):
+            parts = [sx_expr(x) if x is not None else '_' for x in (sl.lower, sl.upper, sl.step)]
+            return '(slice %s %s)' % (sx_expr(e.value), ' '.join(parts))
+        if isinstance(sl, ast.Tuple):
+            raise NotShared('tuple subscript')
+        return '(index %s %s)' % (sx_expr(e.value), sx_expr(sl))
+    if isinstance(e, ast.Name):
+        return '(id %s)' % e.id
+    if isinstance(e, ast.Lambda):
+        return '(lambda %s %s)' % (sx_params(e.args), sx_expr(e.body))
+    if isinstance(e, ast.Constant):
+        v = e.value
+        if v is True or v is False or v is None:
+            return '(id %s)' % v
+        if isinstance(v, int):
+            return '(int %d)' % v
+        if isinstance(v, float):
+            return '(float %016x)' % struct.unpack('>Q', struct.pack('>d', v))[0]
+        if isinstance(v, str):
+            return '(str %s)' % enc_str(v)
+        raise NotShared('constant ' + type(v).__name__)
+    if isinstance(e, ast.UnaryOp):
+        name = {ast.Not: 'not', ast.USub: 'neg', ast.UAdd: 'uplus', ast.Invert: 'invert'}[type(e.op)]
+        return '(%s %s)' % (name, sx_expr(e.operand))
+    if isinstance(e, ast.BinOp):
+        if type(e.op) not in BINOPS:
+            raise NotShared('binop')
+        return '(binop %s %s %s)' % (BINOPS[type(e.op)], sx_expr(e.left), sx_expr(e.right))
+    if isinstance(e, ast.BoolOp):
+        name = 'and' if isinstance(e.op, ast.And) else 'or'
+        acc = sx_expr(e.values[0])
+        for v in e.values[1:]:
+            acc = '(binop %s %s %s)' % (name, acc, sx_expr(v))
+        return acc
+    if isinstance(e, ast.Compare):
+        if len(e.ops) != 1:
+            raise NotShared('chained comparison')
+        if type(e.ops[0]) not in CMPOPS:
+            raise NotShared('is')
+        return '(binop %s %s %s)' % (CMPOPS[type(e.ops[0])], sx_expr(e.left), sx_expr(e.comparators[0]))
+    if isinstance(e, ast.IfExp):
+        return '(ifexp %s %s %s)' % (sx_expr(e.test), sx_expr(e.body), sx_expr(e.orelse))
+    if isinstance(e, ast.List):
+        return '(list' + ''.join(' ' + sx_expr(x) for x in e.elts) + ')'
+    if isinstance(e, ast.Dict):
+        items = []
+        for k, v in zip(e.keys, e.values):
+            if k is None:
+                raise NotShared('dict unpack')
+            items.append('(%s %s)' % (sx_expr(k), sx_expr(v)))
+        return '(dict' + ''.join(' ' + x for x in items) + ')'
+    if isinstance(e, ast.ListComp):
+        return '(listcomp %s%s)' % (sx_expr(e.elt), sx_clauses(e.generators))
+    if isinstance(e, ast.DictComp):
+        return '(dictcomp %s %s%s)' % (sx_expr(e.key), sx_expr(e.value), sx_clauses(e.generators))
+    raise NotShared('expr ' + type(e).__name__)
+
+
+def op_ast(req):
+    src = req['src']
+    try:
+        tree = ast.parse(src)
+    except (SyntaxError, ValueError, MemoryError, RecursionError) as e:
+        return {'ok': True, 'accepted': False, 'msg': str(e)}
+    if req.get('compile', True):
+        try:
+            compile(src, 'x.py', 'exec')
+        except (SyntaxError, ValueError) as e:
+            return {'ok': True, 'accepted': False, 'msg': str(e)}
+    try:
+        sexp = sx_block(tree.body)
+    except NotShared as e:
+        return {'ok': True, 'accepted': True, 'shared': False, 'why': str(e)}
+    except RecursionError:
+        return {'ok': True, 'accepted': True, 'shared': False, 'why': 'recursion'}
+    return {'ok': True, 'accepted': True, 'shared': True, 'sexp': sexp}
+
+
+# ------------------------------------------------------------------------------------------
+# argument binding (C08)
+
+def op_bind(req):
+    """req: sig (python parameter list source), params (names in order), calls: list of python call-argument sources."""
+    ns = {}
+    names = req['params']
+    body = 'def f(%s):\n    return (%s,)\n' % (req['sig'], ', '.join(names)) if names else 'def f(%s):\n    return ()\n' % req['sig']
+    try:
+        exec(body, ns)
+    except SyntaxError as e:
+        return {'ok': True, 'defines': False, 'msg': str(e)}
+    f = ns['f']
+    env = {'f': f, 'T': None}
+    out = []
+    for call in req['calls']:
+        try:
+            r = eval('f(%s)' % call, {'f': f, 'NI': 7})
+            out.append(encode(r))
+        except SyntaxError:
+            out.append('SYNTAX')
+        except TypeError:
+            out.append('ERR')
+    return {'ok': True, 'defines': True, 'results': out}
+
+
+HANDLERS = {
+    'exec': op_exec, 'intops': op_intops, 'parse_int': op_parse_int, 'int_float': op_int_float, 'ast': op_ast, 'bind': op_bind,
+}
+
 
 def handle(req):
-    op = req.get("op")
-    if op == "hello":
-        return {"ok": True, "version": list(sys.version_info[:3])}
-    return {"ok": False, "error": "unknown op"}
+    op = req.get('op')
+    if op == 'hello':
+        return {'ok': True, 'version': list(sys.version_info[:3])}
+    h = HANDLERS.get(op)
+    if h is None:
+        return {'ok': False, 'error': 'unknown op'}
+    return h(req)
+
+
+def selftest():
+    assert handle({'op': 'hello'})['ok']
+    r = handle({'op': 'exec', 'src': 'x = emit([1, "é", (2,), {"a": None}])\nemit(1 // 0)\n', 'vars': True})
+    assert r['outcome'] == 'error' and r['tx'] == ['[1,"\\u{e9}",(2,),{"a":N}]'], r
+    r = handle({'op': 'intops', 'items': [['//', '-7', '2'], ['<<', '1', '-1'], ['%', '5', '0']]})
+    assert r['results'] == ['-4', 'ERR', 'ERR'], r
+    r = handle({'op': 'ast', 'src': 'x = a + b * c\n'})
+    assert r['sexp'] == '(block (assign (id x) (binop + (id a) (binop * (id b) (id c)))))', r
+    r = handle({'op': 'bind', 'sig': 'a, b=2, *c, d, **e', 'params': ['a', 'b', 'c', 'd', 'e'], 'calls': ['1, d=4', '1']})
+    assert r['results'] == ['(1,2,(),4,{},)', 'ERR'], r
+    print('py_oracle selftest ok')
+
 
 def main():
-    if len(sys.argv) > 1 and sys.argv[1] == "--selftest":
-        assert handle({"op": "hello"})["ok"]
-        print("py_oracle selftest ok")
+    if len(sys.argv) > 1 and sys.argv[1] == '--selftest':
+        selftest()
         return
     out = sys.stdout
     for line in sys.stdin:
@@ -22,10 +481,13 @@ def main():
             continue
         try:
             resp = handle(json.loads(line))
+        except OracleTimeout:
+            resp = {'ok': False, 'error': 'timeout'}
         except BaseException as e:  # noqa
-            resp = {"ok": False, "error": "oracle exception: %r" % (e,)}
-        out.write(json.dumps(resp) + "\n")
+            resp = {'ok': False, 'error': 'oracle exception: %r' % (e,)}
+        out.write(json.dumps(resp) + '\n')
         out.flush()
 
-if __name__ == "__main__":
+
+if __name__ == '__main__':
     main()
